@@ -462,12 +462,18 @@ def wanted_origin(case):
     """(scheme, netloc) the overrides ask for — the documented priority list, written independently of the code:
     scheme: _scheme, else the request's; host name: _host, else Host, else SERVER_NAME (without any :port);
     port: _port, else the default port of an explicit _scheme, else the port written in the host text, else
-    SERVER_PORT; the port is elided when it is the scheme's default (or empty)."""
+    SERVER_PORT; the port is elided when it is the scheme's default (or empty).  A bracketed IPv6 literal is a host
+    name as a whole (its inner colons are not port separators)."""
     o = case.get('ovr') or {}
     e = case['env']
     scheme = o['scheme'] if o.get('scheme') is not None else e['scheme']
     ht = host_text(case)
-    name, sep, hport = ht.partition(':')
+    if ht.startswith('[') and ']' in ht:
+        # a bracketed IP literal is the host as a whole; a port may follow the bracket
+        name, rest = ht[:ht.index(']') + 1], ht[ht.index(']') + 1:]
+        sep, hport = (':', rest[1:]) if rest.startswith(':') else ('', '')
+    else:
+        name, sep, hport = ht.partition(':')
     if o.get('port') is not None:
         port = str(o['port'])
     elif o.get('scheme') is not None and default_port(o['scheme']) is not None:
@@ -524,13 +530,6 @@ def classify(case, problems, impl_url=None):
         # F-C17c: an external static registration ignores the application URL altogether
         explained['F-C17c'] = {'path-variant', 'override', 'app-url'}
     else:
-        bracketed = host_text(case).startswith('[')
-        # F-C17b: _partial_application_url splits a bracketed IPv6 host at its first ':'
-        if o.get('app_url') is None and has_origin_override(o) and helper in URL_HELPERS and bracketed:
-            explained['F-C17b'] = {'chars', 'parse', 'elements', 'query', 'anchor', 'override', 'path-variant'}
-        # ... and the url-variant used for the *_path comparison goes through the same branch
-        if helper in PATH_HELPERS and has_origin_override(o) and bracketed:
-            explained['F-C17b'] = {'path-variant'}
         # F-C17d: a path-only result (a *_path helper, or an _app_url that is not scheme://…) that begins with '//'
         # (empty SCRIPT_NAME / _app_url, route path '/', empty first element or value) is a network-path reference
         if impl_url is not None and impl_url.startswith('//') and \
@@ -665,6 +664,13 @@ def raw_impl(case):
             except ValueError:
                 return {'r': None}
             return {'r': {'scheme': s.scheme, 'netloc': s.netloc, 'path': s.path, 'query': s.query, 'fragment': s.fragment}}
+        if op == 'bracket':
+            try:
+                import urllib.parse as _up
+                _up._check_bracketed_host(case['s'])
+                return {'r': True}
+            except ValueError:
+                return {'r': False}
         if op == 'parse_qsl':
             try:
                 return {'r': [list(p) for p in parse_qsl(case['s'], keep_blank_values=True, errors='strict')]}
@@ -691,6 +697,8 @@ def raw_model(case, mo):
     r = mo.get('r')
     if op in ('quote', 'quote_plus', 'unquote', 'unquote_plus'):
         return {'r': T(r)}
+    if op == 'bracket':
+        return {'r': r}
     if op == 'urlencode':
         return {'r': T(r), 'expand': [[T(k), T(v)] for k, v in mo['expand']]}
     if op == 'urlsplit':
@@ -727,8 +735,6 @@ def raw_check(case, mo):
     if mo is not None:
         mv = raw_model(case, mo)
         skip = False
-        if op == 'urlsplit' and got['r'] is None and mv.get('r') is not None and '[' in mv['r']['netloc'] and ']' in mv['r']['netloc']:
-            skip = True        # _check_bracketed_host (ipaddress validation) is not modelled
         if op in ('unquote', 'unquote_plus', 'parse_qsl') and not case['s'].isascii():
             skip = True        # the model's parser is the ASCII fragment
         if not skip and mv != got:
@@ -785,7 +791,8 @@ def gen_routes(rng):
 
 HOSTS = ['example.com', 'localhost', 'a-b.example.org', '127.0.0.1', 'EXAMPLE.com', 'xn--nxasmq6b.example']
 PORTS = [None, None, '80', '443', '8080', '8443', '']
-IPV6 = ['[::1]', '[::1]:8080', '[2001:db8::1]:443', '[2001:db8::1]']
+IPV6 = ['[::1]', '[::1]:8080', '[2001:db8::1]:443', '[2001:db8::1]', '[::ffff:192.0.2.1]:80', '[fe80::1:2:3:4]:', '[1:2:3:4:5:6:7:8]:6543',
+        '[v1.fe:x]:81', '[::]']
 SCRIPTS = ['', '', '', '/app', '/a/b', '/scr ipt', '/é', '/a%b', '/a?b', '/a#b', '/a;b=c', '/日本', "/a'b", '/a+b', '/~u', '/a"b']
 
 
@@ -963,8 +970,50 @@ def gen_case(rng):
     return case
 
 
+def gen_bracket(rng):
+    """candidate contents of a bracketed host: valid and nearly valid IPv6 / IPvFuture / IPv4 texts"""
+    r = rng.random()
+    if r < 0.25:
+        return rng.choice(['::1', '::', '1::', '2001:db8::1', '1:2:3:4:5:6:7:8', '::ffff:192.0.2.1', '1:2:3:4:5:6:1.2.3.4', 'fe80::1%eth0',
+                           'v1.fe', 'vFF.a:b', '1.2.3.4', '', ':', ':::', '1:2:3:4:5:6:7:8:9', '1::2::3', '::1.2.3.256', '::01.2.3.4', 'v.x', 'v1.',
+                           '12345::', 'g::1', '::1%', '::1%a%b', ':1:2:3:4:5:6:7', '1:2:3:4:5:6:7:', '1::2:3:4:5:6:7', '1::2:3:4:5:6:7:8', '::1/64'])
+    if r < 0.5:
+        # a well-formed address: 8 hextets, or fewer around one '::', optionally an IPv4 tail, optionally a zone
+        hx = lambda: ''.join(rng.choice('0123456789abcdefABCDEF') for _ in range(rng.randint(1, 4)))
+        v4 = rng.random() < 0.25
+        total = 6 if v4 else 8
+        if rng.random() < 0.6:
+            keep = rng.randint(0, total - 1)
+            left = rng.randint(0, keep)
+            l, rr = [hx() for _ in range(left)], [hx() for _ in range(keep - left)]
+            if v4:
+                rr.append('%d.%d.%d.%d' % tuple(rng.choice([0, 1, 9, 10, 99, 100, 255]) for _ in range(4)))
+            s = ':'.join(l) + '::' + ':'.join(rr)
+        else:
+            parts = [hx() for _ in range(total)]
+            if v4:
+                parts.append('%d.%d.%d.%d' % tuple(rng.choice([0, 1, 9, 10, 99, 100, 255]) for _ in range(4)))
+            s = ':'.join(parts)
+        if rng.random() < 0.1:
+            s += '%' + rng.choice(['eth0', '1', 'a-b'])
+        if rng.random() < 0.15:
+            s = s.replace(':', '', 1) if rng.random() < 0.5 else s + rng.choice([':', '0', 'g'])      # … and a near miss
+        return s
+    if r < 0.62:
+        return rng.choice(['v', 'V']) + ''.join(rng.choice('0aF1g.:x') for _ in range(rng.randint(0, 6)))
+    parts = []
+    for _ in range(rng.choice([2, 3, 4, 6, 7, 8, 8, 9])):
+        parts.append(rng.choice(['', '', '0', '1', 'ff', 'FFFF', 'abcd', '12345', 'g', '1.2.3.4', '255.255.255.255', '01.2.3.4', '1.2.3']))
+    s = ':'.join(parts)
+    if rng.random() < 0.15:
+        s += rng.choice(['%eth0', '%', '%a%b', '/64'])
+    return s
+
+
 def gen_raw(rng):
-    op = rng.choice(['quote', 'quote', 'quote_plus', 'urlencode', 'urlsplit', 'urlsplit', 'parse_qsl', 'unquote', 'unquote_plus'])
+    op = rng.choice(['quote', 'quote', 'quote_plus', 'urlencode', 'urlsplit', 'urlsplit', 'parse_qsl', 'unquote', 'unquote_plus', 'bracket'])
+    if op == 'bracket':
+        return {'op': op, 's': gen_bracket(rng)}
     if op in ('quote', 'quote_plus'):
         safe = rng.choice(['', '/', P_trav.PATH_SEGMENT_SAFE, P_trav.PATH_SAFE, P_url.QUERY_SAFE, ':@', '~', '%', '+', ' ', 'é/'])
         return {'op': op, 's': gen_text(rng, 8, p_control=0.08), 'safe': safe}
@@ -974,7 +1023,7 @@ def gen_raw(rng):
         alpha = list('ab1+-.') + list(':/?#[]@%') + [' ', '\t', '\n', '\r', '\x00', 'é', '&', '=']
         if rng.random() < 0.5:
             s = rng.choice(['http', 'HTTPS', 'a+b', '1x', '', 'ftp', 'x']) + rng.choice([':', '://', '//', '']) + \
-                rng.choice(['h', 'h:80', 'u@h', '[::1]', '[::1', '::1]', '', 'é.com']) + \
+                rng.choice(['h', 'h:80', 'u@h', '[::1]', '[::1', '::1]', '', 'é.com', '[' + gen_bracket(rng) + ']', '[' + gen_bracket(rng) + ']:80', 'a]b[c']) + \
                 ''.join(rng.choice(alpha) for _ in range(rng.randint(0, 8)))
         else:
             s = ''.join(rng.choice(alpha) for _ in range(rng.randint(0, 12)))
@@ -1053,7 +1102,7 @@ def run_cases(ctx, cases, dist, res, stream):
                 bump(dist, 'external_static')
         else:
             m, v = raw_check(case, mo)
-            bump(dist['raw_op'], case['op'])
+            bump(dist['raw_op'], case['op'] + ('' if case['op'] != 'bracket' else ':accepted' if raw_impl(case)['r'] else ':refused'))
         if m:
             m['stream'] = stream
             res['mismatches'].append(m)
@@ -1199,6 +1248,7 @@ def second_pass(ctx, done_cases, dist, res):
     whose case is a short history that reproduces the difference"""
     order = list(range(len(done_cases)))
     ctx.rng.shuffle(order)
+    order = order[:ctx.n(3000, 12000)]        # a shuffled sample of the run's calls (bounded, to keep the thorough tier short)
     seen_before = []
     for idx in order:
         case, first = done_cases[idx]
@@ -1223,9 +1273,26 @@ def minimise_history(before, case, limit=4000):
     return {'op': 'history', 'calls': before[-200:] + [case]}
 
 
+_REGNAME = re.compile(r"[A-Za-z0-9._~!$&'()*+,;=-]*(:[0-9]*)?\Z")
+
+
+def host_in_domain(h):
+    """`reg-name[:port]` or a bracketed IP literal accepted by urllib, `[…][:port]`; a `[` without `]` is outside"""
+    if h is None:
+        return True
+    if h.startswith('['):
+        i = h.find(']')
+        if i < 0 or not re.match(r'(:[0-9]*)?\Z', h[i + 1:]):
+            return False
+        return raw_impl({'op': 'bracket', 's': h[1:i]})['r']
+    return bool(_REGNAME.match(h))
+
+
 def in_domain(c):
-    """the shrinker must not leave the property's domain (well-formed environ)"""
+    """the shrinker must not leave the property's domain (well-formed environ and host texts)"""
     e = c.get('env') or {}
+    if not (host_in_domain(e.get('host')) and host_in_domain((c.get('ovr') or {}).get('host'))):
+        return False
     return (c.get('op', 'url') == 'url' and e.get('scheme') in ('http', 'https') and (e.get('host') is None or e.get('host')) and e.get('server_name')
             and e.get('server_port') and (e.get('script_name') == '' or str(e.get('script_name', 'x')).startswith('/')))
 
@@ -1275,7 +1342,7 @@ def run(ctx):
     res = {'mismatches': [], 'violations': [], 'agreeing': 0, '_seen': set(), '_nontriv': 0, '_done': []}
     corpus = [c for _, c in ctx.corpus()]
     run_cases(ctx, corpus, dist, res, 'corpus')
-    n_url, n_raw = ctx.n(2200, 40000), ctx.n(2500, 60000)
+    n_url, n_raw = ctx.n(2200, 32000), ctx.n(2500, 60000)
     done = 0
     samples = []
     while done < n_url and ctx.time_left() > 120:
@@ -1291,16 +1358,21 @@ def run(ctx):
     run_cases(ctx, cube, dist, res, 'override-cube')
     # history independence: twin histories (equal-but-differently-printed values in one slot), then every helper
     # call of this run once more in a shuffled order
-    hists = [gen_history(rng) for _ in range(ctx.n(300, 4000))]
+    hists = [gen_history(rng) for _ in range(ctx.n(300, 2000))]
     run_histories(ctx, hists, dist, res, 'histories')
     second_pass(ctx, res['_done'], dist, res)
+    # the excluded point of Props.C17.unbalanced_bracket_outside, replayed on the real code (outside the domain)
+    excl = dict(WITNESS_C17A, helper='route_url', env=dict(WITNESS_C17A['env'], host='[::1', script_name=''), ovr={'scheme': 'https'})
+    excl_out = call_helper(excl)
+    excl_note = 'excluded point (Host "[::1" without its "]", _scheme=https; outside the domain): impl %r, urlsplit %s' % (
+        excl_out, std_decode(excl_out.get('url', ''), 0)['split'])
     res['violations'] = shrink_violations(res['violations'])
     total = len(corpus) + done + len(raws) + len(cube) + len(hists)
     return {'evaluations': total, 'distinct_nontrivial': res['_nontriv'], 'rule': RULE, 'agreeing': res['agreeing'],
             'samples': samples + raws[:2] + hists[:1], 'mismatches': res['mismatches'][:20], 'violations': res['violations'],
             'distribution': dist, 'exhaustive': False,
-            'notes': ['corpus %d, helper cases %d, encoder/parser cases %d, override cube %d, twin histories %d, second-pass calls %d' % (len(corpus), done, len(raws), len(cube), len(hists), dist['second_pass_calls']),
-                      'history clause: every history is run in sequence after one cache reset and call by call after a reset each; every helper call of the run is repeated in a shuffled order; results must be equal',
+            'notes': [excl_note, 'corpus %d, helper cases %d, encoder/parser cases %d, override cube %d, twin histories %d, second-pass calls %d' % (len(corpus), done, len(raws), len(cube), len(hists), dist['second_pass_calls']),
+                      'history clause: every history is run in sequence after one cache reset and call by call after a reset each; a shuffled sample of the helper calls of the run is repeated (quick: all; thorough: 12 000); results must be equal',
                       'each helper case runs the helper, its *_path/*_url sibling and (with _app_url) the call without _scheme/_host/_port on the real code'],
             'assumptions': [
                 'Host / _host / _scheme / _port / _app_url values are the caller\'s and are generated well-formed (the helpers copy them verbatim)',
